@@ -18,4 +18,5 @@ let () =
   | "names" -> names ()
   | "fs" -> Fsdrv.run ()
   | "adapters" -> Adrv.run ()
+  | "hir" -> Hirdrv.run ()
   | m -> prerr_endline ("unknown mode " ^ m); exit 2
